@@ -868,9 +868,10 @@ class LatticeConstraints(keras.constraints.Constraint):
     self.unimodalities = utils.canonicalize_unimodalities(unimodalities)
     self.edgeworth_trusts = utils.canonicalize_trust(edgeworth_trusts)
     self.trapezoid_trusts = utils.canonicalize_trust(trapezoid_trusts)
-    self.monotonic_dominances = monotonic_dominances
-    self.range_dominances = range_dominances
-    self.joint_monotonicities = joint_monotonicities
+    as_tuples = lambda ps: [tuple(p) for p in ps] if ps else ps
+    self.monotonic_dominances = as_tuples(monotonic_dominances)
+    self.range_dominances = as_tuples(range_dominances)
+    self.joint_monotonicities = as_tuples(joint_monotonicities)
     self.joint_unimodalities = joint_unimodalities
     self.output_min = output_min
     self.output_max = output_max
